@@ -95,7 +95,7 @@ def specRhsRowFn (c : Content) (cache : Cache) (r : Rat × Row) : Except Err (Ra
   match pointRow c r.1 r.2 with
   | .error e => .error e
   | .ok row =>
-    match rhsFromArgs cache (omKeys c.vars) (("time", r.1) :: row) with
+    match rhsFromArgs cache (omKeys c.vars) ((("time", r.1) :: row) ++ c.data) with
     | .error e => .error e
     | .ok d => .ok (r.1, d)
 
